@@ -32,14 +32,16 @@ def main(tier, args):
             # ASan families: every odd partition (the only one of a single-partition family) runs its protos with setLogEnable(true)
             log = "1" if (tag == "asan" and (p % 2 == 1 or nparts == 1)) else "0"
             jobs.append(("%s:%s:%d" % (tag, name, p), [exe, name, str(p), str(nparts), lvl, str(maxseg), log]))
-    depth = 12 if thorough else 7     # thorough reaches the BFS fixpoint (depth 9-11) for every configuration
+    depth = 12 if thorough else 7     # thorough reaches the BFS fixpoint (depth 8-11) for every configuration
     # (proto, engine, timeout_sec, optional ops: r = cleanup+initialize once, b = one request in the opposite direction)
     # quick: op r on every configuration, op b on one (the product r x b - measured on raw/epoll/2: fixpoint at depth 9, 17636 states, 174546 transitions - is left to the thorough tier)
     cfgs = [("raw", "epoll", 2, "b"), ("raw", "epoll", 2, "r"), ("header", "epoll", 2, "r"), ("packet", "epoll", 2, "r"), ("raw", "select", 2, "r"),
             ("raw", "epoll", 1, "r"), ("raw", "epoll", 3, "r"), ("raw", "epoll", 0, "r")]
     if thorough:
-        cfgs = [(p, e, t, "rb") for p, e, t, o in cfgs[1:]]
-        cfgs += [("header", "select", 3, "rb"), ("packet", "select", 1, "rb"), ("header", "epoll", 0, "rb"), ("packet", "select", 0, "rb")]
+        # measured (loaded machine): rb reaches its fixpoint at depth 8/9/11 for timeout 1/2/3 (3712/17636/51508 states, 45 s/65 s/280 s); with the 30 s default every
+        # advance is ten loop passes, so those configurations keep op r only (rb did not finish within 500 s)
+        cfgs = [(p, e, t, "rb" if t else "r") for p, e, t, o in cfgs[1:]]
+        cfgs += [("header", "select", 3, "rb"), ("packet", "select", 1, "rb"), ("header", "epoll", 0, "r"), ("packet", "select", 0, "r")]
     def rpc_jobs(cs):
         for p, e, t, o in cs:
             jobs.append(("rpc:%s:%s:t%d:%s" % (p, e, t, o), [rpc, p, e, str(t), str(depth), o]))
@@ -95,7 +97,7 @@ def main(tier, args):
                    "canonical state = per side: id counter, pending-callback ids, to-be-responded set, both TimeoutMonitor rings + timer/callback flags, service count; loop timer heap; ids seen by each peer; model: pending countdowns, chaining flag, budget. "
                    "LANE (deterministic, outside the BFS; 3 protos x 2 engines x timeout {1,2,3} x N in {2,20,60}): L1 N pending, the callback of the first response issues 15 follow-ups, the rest answered in reverse, all duplicated, late copies after the timeouts; "
                    "L2 two staggered groups never answered: the first timeout callback makes the peer answer every other request re-entrantly and issues 15 follow-ups; L3 a chain of N synchronously answered requests each issued from the previous callback: "
-                   "every callback exactly once with its own result or its timeout in exactly its tick" % (b[:7] + (",2^24" if thorough else "", b[7], "every optional op on every configuration" if thorough else "op r on every configuration, op b (without r) on raw/epoll/timeout 2")),
+                   "every callback exactly once with its own result or its timeout in exactly its tick" % (b[:7] + (",2^24" if thorough else "", b[7], "ops r and b together on every configuration with an explicit timeout_sec, op r alone with the 30 s default" if thorough else "op r on every configuration, op b (without r) on raw/epoll/timeout 2")),
               assumptions=["decoded values are observed through the public request/response callbacks, so test values travel as params/result of JSON-RPC envelopes (DESIGN 1.7)",
                            "for the packet framing the unit of segmentation is the packet (DESIGN 1.7)",
                            "on hostile streams only the decoded message sequence is compared between segmentations (a differing error/stall status is counted in hostile_status_diffs, not flagged)",
